@@ -1,6 +1,7 @@
 package vc
 
 import (
+	"go/token"
 	"fmt"
 	"go/types"
 
@@ -158,10 +159,40 @@ func (fr *Frame) execRecv(st *State, x *ssa.UnOp) {
 	fr.assumeWF(st, v)
 	fr.top.note("channel receive abstracted: received value unconstrained (well-formed) in " + fr.fn.Name())
 	if x.CommaOk {
-		fr.regs[x] = Val{K: KTuple, Elems: []Val{v, scalar(types.Typ[types.Bool], fr.ctx.Fresh("recvok", SBool))}}
+		ok := fr.ctx.Fresh("recvok", SBool)
+		fr.chanInv(st, ct.Elem(), v, ok, false, x.Pos())
+		fr.regs[x] = Val{K: KTuple, Elems: []Val{v, scalar(types.Typ[types.Bool], ok)}}
 		return
 	}
+	fr.chanInv(st, ct.Elem(), v, True, false, x.Pos())
 	fr.setReg(x, v)
+}
+
+// chanInv applies the package's channel invariants for element type et to value v:
+// assumed (under cond) for a received value, a proof obligation for a sent one.
+func (fr *Frame) chanInv(st *State, et types.Type, v Val, cond Term, send bool, pos token.Pos) {
+	if fr.fn.Pkg == nil {
+		return
+	}
+	pkg := fr.fn.Pkg.Pkg
+	for _, ci := range fr.en.CS.ChanInvs {
+		if ci.PkgPath != pkg.Path() {
+			continue
+		}
+		t := fr.en.parseType(pkg, ci.Elem)
+		if t == nil || !types.Identical(t, et) {
+			continue
+		}
+		sc := &Scope{fr: fr, st: st, old: st, vars: map[string]Val{"v": v}, entry: map[string]Val{}, pkg: pkg}
+		g := fr.evalBool(sc, ci.E)
+		if send {
+			cl := &Clause{Kind: "chaninv", Text: ci.Text, E: ci.E}
+			fr.oblige(st, "chaninv", "send", g, cl, pos)
+		} else {
+			fr.assume(st, Implies(cond, g))
+			fr.top.trusted["channel invariant assumed at receives (checked at sends in functions under contract): "+ci.Text] = true
+		}
+	}
 }
 
 func (fr *Frame) execSelect(st *State, x *ssa.Select) {
@@ -180,7 +211,11 @@ func (fr *Frame) execSelect(st *State, x *ssa.Select) {
 			ct := s.Chan.Type().Underlying().(*types.Chan)
 			v := fr.fresh("selrecv", ct.Elem())
 			fr.assumeWF(st, v)
+			fr.chanInv(st, ct.Elem(), v, True, false, x.Pos())
 			elems = append(elems, v)
+		} else if s.Send != nil {
+			ct := s.Chan.Type().Underlying().(*types.Chan)
+			fr.chanInv(st, ct.Elem(), fr.val(st, s.Send), True, true, x.Pos())
 		}
 	}
 	fr.regs[x] = Val{K: KTuple, Elems: elems}
@@ -189,10 +224,32 @@ func (fr *Frame) execSelect(st *State, x *ssa.Select) {
 // strKey builds the canonical key of a string / byte-slice value.
 func (fr *Frame) strKey(st *State, k Val) Term {
 	h := fr.heap(st, elemHeap(types.Typ[types.Uint8], ""), byteHeapSort)
-	src := fr.ctx.Def("ksrc", Select(h, k.Obj()))
-	c := fr.ctx.Fresh("kcanon", ArrSort(SInt, SBV8))
-	j := Term{"j!k", SInt}
-	body := Eq(Select(c, j), Ite(InRange(j, IntT(0), k.Len()), Select(src, IAdd(k.Off(), j)), BV(0, 8)))
-	fr.ctx.Assume(Forall([]Term{j}, body, Select(c, j)))
+	// canonB(a, off, len): the bytes a[off..off+len) moved to 0..len, zero elsewhere. A pure term
+	// (usable under quantifiers; equal arguments give syntactically equal keys).
+	fr.ctx.Raw("fun:canonB", "(declare-fun canonB ((Array Int (_ BitVec 8)) Int Int) (Array Int (_ BitVec 8)))\n"+
+		"(assert (forall ((a!c (Array Int (_ BitVec 8))) (o!c Int) (l!c Int) (j!c Int)) (! (= (select (canonB a!c o!c l!c) j!c) (ite (and (<= 0 j!c) (< j!c l!c)) (select a!c (+ o!c j!c)) #x00)) :pattern ((select (canonB a!c o!c l!c) j!c)))))")
+	c := app(ArrSort(SInt, SBV8), "canonB", Select(h, k.Obj()), k.Off(), k.Len())
 	return Term{"(mkkey " + k.Len().S + " " + c.S + ")", "StrKey"}
+}
+
+// execNext advances a map iterator: whether another entry exists is nondeterministic; when it
+// does, the key is some key present in the map (as of now) and the value is its current value.
+// Order and "each key once" are not modelled.
+func (fr *Frame) execNext(st *State, x *ssa.Next) {
+	rng, ok := x.Iter.(*ssa.Range)
+	if !ok || x.IsString {
+		panic(unsupported("range over string"))
+	}
+	mt := rng.X.Type().Underlying().(*types.Map)
+	m := fr.regs[rng].Elems[0]
+	okT := fr.ctx.Fresh("nextok", SBool)
+	kv := fr.fresh("rk", mt.Key())
+	fr.assumeWF(st, kv)
+	kt := fr.mapKey(st, mt, kv)
+	vv := fr.mapGet(st, m.Term(), mt, rng.X.Type(), kt)
+	fr.assumeWF(st, vv)
+	has := fr.mapHas(st, m.Term(), mt, rng.X.Type(), kt)
+	fr.assume(st, Implies(okT, And(Not(Eq(m.Term(), Nil)), has)))
+	fr.top.note("range over a map in " + fr.fn.Name() + ": each step yields some present key (order and once-only not modelled)")
+	fr.regs[x] = Val{K: KTuple, Elems: []Val{scalar(types.Typ[types.Bool], okT), kv, vv}}
 }
